@@ -73,7 +73,77 @@ def scn_estimator(T, case):
     T.prove("C14.estimator.too_few_weighted_realizations_always_abort", (nz >= 2) if case["method"] == "stddev" else True)
 
 
+def cases_constraint_info(tier):
+    from contracts.C13 import cases_transform
+
+    for cid, c in cases_transform(tier):
+        yield cid, dict(c, prefix="C14.constraint_info")
+
+
+def scn_constraint_info(T, case):
+    """raises-clause of ConstraintInfo.transform_from_optimizer (called while results are delivered): no AssertionError for any
+    combination of configured transforms and present difference groups (the scenario of C13, stated here as a clause of C14)."""
+    from contracts.C13 import scn_transform
+
+    scn_transform(T, case)
+
+
+def cases_native_patterns(tier):
+    import itertools
+
+    pats = [()] + [((r, c),) for r in range(2) for c in ("objective", "constraint")] + [((0, "objective"), (1, "constraint")), ((0, "constraint"), (1, "constraint"))]
+    for step in ("evaluator", "optimizer"):
+        for nan in pats:
+            for ms in (0, 1, 2):
+                yield "%s/nan=%s/min_success=%d" % (step, "+".join("%d%s" % (r, c[0]) for r, c in nan) or "none", ms), {"step": step, "nan": [list(x) for x in nan], "ms": ms, "__concrete_only__": True}
+
+
+def scn_native_patterns(T, case):
+    """Bounded, native, through the whole real stack (real configuration, real EnsembleEvaluator, real SciPy): which exit code does a
+    step give when given (realization, column) entries of the very first evaluation are NaN?"""
+    import numpy as np
+
+    from ropt.enums import OptimizerExitCode
+    from ropt.evaluator import EvaluatorResult
+    from ropt.plan import OptimizerContext, Plan
+
+    R = 2
+    nan = {(r, c) for r, c in case["nan"]}
+    calls = [0]
+
+    def ev(x, ctx):
+        o = np.array([[float(((x[k] - 0.2) ** 2).sum())] for k in range(x.shape[0])])
+        c = np.array([[float(x[k].sum())] for k in range(x.shape[0])])
+        if calls[0] == 0:
+            for k in range(x.shape[0]):
+                r = int(ctx.realizations[k])
+                if (ctx.perturbations is None or ctx.perturbations[k] < 0):
+                    if (r, "objective") in nan:
+                        o[k, 0] = np.nan
+                    if (r, "constraint") in nan:
+                        c[k, 0] = np.nan
+        calls[0] += 1
+        return EvaluatorResult(objectives=o, constraints=c)
+
+    cfg = {"variables": {"initial_values": [0.0, 0.1]}, "realizations": {"weights": [1.0, 1.0], "realization_min_success": case["ms"]},
+           "nonlinear_constraints": {"lower_bounds": [-10.0], "upper_bounds": [10.0]}, "optimizer": {"method": "slsqp", "max_functions": 2}, "gradient": {"number_of_perturbations": 2}}
+    plan = Plan(OptimizerContext(evaluator=ev))
+    step = plan.add_step(case["step"])
+    rc = plan.run_step(step, config=cfg)
+    failed = {r for r, _ in nan}
+    ok = R - len(failed)
+    if case["step"] == "evaluator":
+        want = OptimizerExitCode.TOO_FEW_REALIZATIONS if ok < case["ms"] else OptimizerExitCode.EVALUATION_STEP_FINISHED
+        T.prove("C14.native.evaluator_step_reports_too_few_realizations_exactly_when_too_few_succeed", rc == want, "got %s" % rc.name)
+    else:
+        too_few = ok < case["ms"] or (case["ms"] < 1 and ok == 0)
+        T.prove("C14.native.optimizer_step_reports_too_few_realizations_exactly_when_too_few_succeed", (rc == OptimizerExitCode.TOO_FEW_REALIZATIONS) == too_few, "got %s" % rc.name)
+        T.prove("C14.native.optimizer_step_ends_with_a_documented_code", rc in (OptimizerExitCode.TOO_FEW_REALIZATIONS, OptimizerExitCode.MAX_FUNCTIONS_REACHED, OptimizerExitCode.OPTIMIZER_STEP_FINISHED))
+
+
 SCENARIOS = [
+    Scenario("constraint_info_raises_clause", scn_constraint_info, cases_constraint_info, {"quick": 3, "thorough": 20}),
+    Scenario("native_failure_patterns", scn_native_patterns, cases_native_patterns, {"quick": 1, "thorough": 1}),
     Scenario("step_exception_flow", scn, stepflow.cases, {"quick": 10, "thorough": 100}),
     Scenario("estimator_raises_clause", scn_estimator, cases_estimator, {"quick": 10, "thorough": 100}),
 ]
